@@ -29,3 +29,239 @@ def known(pid, sig, replay):
         if e["property"] == pid and all(sig.get(k) == v for k, v in e.get("signature", {}).items()):
             return e["what"]
     return None
+
+
+# ---------------------------------------------------------------------------------------
+# shimmed build: a scratch copy of /repo whose file-system calls go through an observation
+# hook (tools/shimcopy.sh) — used for crash points (C05), storage faults (C06), scaled
+# sleeps (C10)
+# ---------------------------------------------------------------------------------------
+import subprocess, hashlib, random
+from concurrent.futures import ThreadPoolExecutor
+
+LEAN = os.path.join(VERIF, "lean")
+MODEL = os.path.join(LEAN, ".lake", "build", "bin", "sodmodel")
+GOENV = dict(os.environ, GOFLAGS="-mod=mod", GOPROXY="off", GOSUMDB="off", GOTOOLCHAIN="local")
+
+
+def sh(cmd, **kw):
+    return subprocess.run(cmd, stdout=subprocess.PIPE, stderr=subprocess.STDOUT, text=True, **kw)
+
+
+def shim_harness(run, race=False):
+    key = "shim_race" if race else "shim"
+    if getattr(run, key, None):
+        return getattr(run, key)
+    src = os.path.join(run.scratch, "sodshim")
+    r = sh([os.path.join(VERIF, "tools", "shimcopy.sh"), src], env=GOENV)
+    if r.returncode != 0:
+        path = run.write_replay({"kind": "shim-build-failure", "detail": r.stdout[-3000:]})
+        run.violations.append(("the shimmed copy of the working tree does not build", r.stdout[-300:], path, False))
+        return None
+    mod = os.path.join(run.scratch, "go.shim.mod")
+    hdir = os.path.join(VERIF, "harness")
+    open(mod, "w").write(open(os.path.join(hdir, "go.mod")).read().replace("=> /repo", "=> " + src))
+    open(os.path.join(run.scratch, "go.shim.sum"), "w").write(open(os.path.join(hdir, "go.sum")).read())
+    out = os.path.join(run.scratch, "harness-" + key)
+    args = ["go", "build", "-tags", "shim", "-modfile=" + mod, "-o", out]
+    if race:
+        args.insert(2, "-race")
+    r = sh(args + ["."], cwd=hdir, env=GOENV)
+    if r.returncode != 0:
+        path = run.write_replay({"kind": "shim-build-failure", "detail": r.stdout[-3000:]})
+        run.violations.append(("shim harness does not build", r.stdout[-300:], path, False))
+        return None
+    setattr(run, key, out)
+    return out
+
+
+def model_verdicts(lines):
+    m = subprocess.run([MODEL], input="\n".join(lines) + "\n", stdout=subprocess.PIPE, stderr=subprocess.PIPE, text=True)
+    return m.stdout.splitlines()
+
+
+def _result(lines, call):
+    """result of the first line whose call is `call`"""
+    for l in lines:
+        if l.startswith(call + " => ") or l == call + " =>":
+            return l.split(" => ", 1)[1] if " => " in l else ""
+    return None
+
+
+def crash_points(run):
+    """C05: for every history and EVERY crash point between two directory mutations: kill the
+    process there (real process, real directory), recover in a fresh process, compare the
+    recovery with the model's prediction and judge it with the property's oracle."""
+    h = shim_harness(run)
+    if not h:
+        return
+    quick = run.tier == "quick"
+    nhist = 24 if quick else 160
+    base = os.path.join(run.scratch, "crash")
+    r = sh([h, "-profile", "crash", "-seed", str(run.seed), "-n", str(nhist), "-out", base, "-root", base + ".db"])
+    if r.returncode != 0:
+        path = run.write_replay({"kind": "harness-crash", "profile": "crash", "output": r.stdout[-2000:]})
+        run.violations.append(("process crash while executing histories", r.stdout[-300:], path, True))
+        return
+    trace = open(base + ".trace").read().splitlines()
+    opslines = open(base + ".ops").read().splitlines()
+    # full-run correspondence (includes the per-call file-operation sequences)
+    run.analyse("crash", [(0, base, False, "", model_verdicts(trace), "")])
+    # split the full trace per history, count mutations
+    hists, cur = [], None
+    for l in trace:
+        if l.startswith("# history"):
+            cur = []
+            hists.append(cur)
+        elif cur is not None:
+            cur.append(l)
+    jobs = []
+    for hi, lines in enumerate(hists):
+        nm = sum(len(l.split(" => ", 1)[1].split()) for l in lines if l.startswith("fsops => "))
+        ks = list(range(1, nm + 1))
+        if quick and len(ks) > 30:
+            rnd = random.Random(run.seed * 7919 + hi)
+            ks = sorted(rnd.sample(ks, 30))
+        for k in ks:
+            jobs.append((hi, k))
+    stats = {"histories": len(hists), "crash_points": len(jobs), "detected": 0, "consistent_undetected": 0,
+             "known": 0, "violations": 0, "by_call": {}}
+
+    def one(job):
+        hi, k = job
+        tag = f"{base}-h{hi}-k{k}"
+        open(tag + ".in", "w").write(opslines[hi] + "\n")
+        st = tag + ".state"
+        r1 = sh([h, "-replay", tag + ".in", "-crashat", str(k), "-keep", "-root", tag + ".db", "-state-out", st, "-out", tag + ".a"])
+        a = open(tag + ".a.trace").read().splitlines() if os.path.exists(tag + ".a.trace") else []
+        if r1.returncode != 77:
+            return job, None, f"expected the process to stop at mutation {k}, exit={r1.returncode}: {r1.stdout[-300:]}", a, []
+        r2 = sh([h, "-recover", "-root", tag + ".db", "-state-in", st, "-out", tag + ".b"], timeout=120)
+        b = open(tag + ".b.trace").read().splitlines() if os.path.exists(tag + ".b.trace") else []
+        b = [l for l in b if not l.startswith("#")]
+        if r2.returncode != 0:
+            return job, None, f"recovery process failed: exit={r2.returncode} {r2.stdout[-300:]}", a, b
+        v = model_verdicts(a + b)
+        subprocess.run(["rm", "-rf", tag + ".db"])
+        return job, v, None, a, b
+
+    with ThreadPoolExecutor(max_workers=16) as ex:
+        results = list(ex.map(one, jobs))
+
+    reported = 0
+    for (hi, k), verdicts, err, a, b in results:
+        crashline = next((l for l in a if l.startswith("crash at=")), "")
+        call = crashline.split(" ")[2] if crashline else "?"
+        stats["by_call"][call] = stats["by_call"].get(call, 0) + 1
+        problems = []
+        if err:
+            problems.append(("infrastructure", err))
+        else:
+            first = _result(b, "count")
+            cons = [l.split(" => ")[1] for l in b if l.startswith("consistent => ")]
+            ctrl = [l.split(" => ")[1] for l in b if l.startswith("control => ")]
+            rep = _result(b, "repair")
+            detected = first == "E:corrupted"
+            stats["detected"] += detected
+            lsline = _result(b, "ls") or ""
+            if first == "E:notfound" and lsline.startswith("[] schema=0"):
+                # the crash fell inside the very first Create: no collection exists, nothing was
+                # acknowledged; only agreement with the model is required
+                stats["no_collection"] = stats.get("no_collection", 0) + 1
+                bad = [(l, v) for l, v in zip(a + b, verdicts) if v != "="]
+                if bad:
+                    problems.append(("model-disagreement", f"{bad[0][0][:200]} | model: {bad[0][1][:200]}"))
+                    first = "skip"
+                else:
+                    continue
+            if first == "skip":
+                pass
+            elif not detected:
+                if first is None or first.startswith("E:") or first == "PANIC":
+                    problems.append(("unreadable", f"first access after the crash answers {first}"))
+                elif cons and cons[0] != "true":
+                    problems.append(("silent-divergence", "reopening reports no corruption but index and files disagree"))
+                else:
+                    stats["consistent_undetected"] += 1
+            if first == "skip":
+                pass
+            elif rep not in ("ok",):
+                problems.append(("repair-failed", f"Repair answers {rep}"))
+            elif len(ctrl) >= 2 and ctrl[1] != "ok":
+                problems.append(("control-after-repair", f"Control after Repair answers {ctrl[1]}"))
+            elif len(cons) >= 2 and cons[1] != "true":
+                problems.append(("stale-after-repair", "after Repair searches do not agree with file contents"))
+            for l in b:
+                if l.endswith("E:syntax") or l.endswith("PANIC") or l.endswith("BADJSON") or l.endswith("BADGZ"):
+                    problems.append(("unreadable", l[:200]))
+            bad = [(l, v) for l, v in zip(a + b, verdicts) if v != "="]
+            if bad and not problems:
+                problems.append(("model-disagreement", f"{bad[0][0][:200]} | model: {bad[0][1][:200]}"))
+        if not problems:
+            continue
+        # signature of the recorded finding: an UPDATE interrupted after its object file was
+        # replaced and before the schema was committed
+        sig = crash_signature(a, crashline, hists[hi])
+        kinds = sorted(set(p[0] for p in problems))
+        replay = {"kind": "crash-point", "property": "C05", "history_ops": json.loads(opslines[hi]), "crash_at_mutation": k,
+                  "interrupted_call": crashline, "signature": sig, "problems": problems,
+                  "trace_until_crash": [l for l in a if not l.startswith("casemap")], "recovery": b,
+                  "how_to_replay": "harness-shim -replay <ops> -crashat <k> -keep ; harness-shim -recover"}
+        kf = None
+        if set(kinds) <= {"silent-divergence", "stale-after-repair", "model-disagreement"} and sig.get("window") == "object-replaced/schema-not-committed":
+            kf = known("C05", {"window": sig["window"], "call": "update"}, replay)
+        if kf:
+            stats["known"] += 1
+            if kf not in run.known:
+                run.known.append(kf)
+            continue
+        stats["violations"] += 1
+        reported += 1
+        if reported <= 3:
+            path = run.write_replay(replay)
+            run.violations.append((f"crash point {k} of history {hi}: " + ", ".join(kinds), problems[0][1], path,
+                                   kinds != ["model-disagreement"] and kinds != ["infrastructure"]))
+    run.cov["crash"] = stats
+    run.cov["evaluations"] = run.cov.get("evaluations", 0) + len(jobs)
+    for (hi, k), *_ in results:
+        run.hashes.add(f"crash-{hi}-{k}")
+
+
+def crash_signature(a, crashline, full):
+    """which window of which kind of call the crash fell into, from the implementation's own
+    file-operation log (objects already on disk before the call are updates)"""
+    stored = set()
+    done_calls = 0
+    for l in a:
+        if l.startswith("fsops => ") or l == "fsops =>":
+            done_calls += 1
+            for t in l.split("=>", 1)[1].split():
+                if t.startswith("w:"):
+                    stored.add(t[2:])
+                elif t.startswith("r:"):
+                    stored.discard(t[2:])
+    fs_full = [l.split("=>", 1)[1].split() for l in full if l.startswith("fsops =>")]
+    sig = {"call": crashline.split(" ")[2] if crashline else "?"}
+    try:
+        j = int(crashline.split(" ")[1].split("=")[1])
+        toks = fs_full[done_calls][:j]
+        # what the interrupted call had committed (up to its last schema write) counts as stored
+        uncommitted = toks
+        if "ws" in toks:
+            last = len(toks) - 1 - toks[::-1].index("ws")
+            for t in toks[:last]:
+                if t.startswith("w:"):
+                    stored.add(t[2:])
+                elif t.startswith("r:"):
+                    stored.discard(t[2:])
+            uncommitted = toks[last + 1:]
+        replaced = [t for t in uncommitted if t.startswith("w:") and t[2:] in stored]
+        if replaced:
+            sig["window"] = "object-replaced/schema-not-committed"
+            sig["objects"] = replaced
+        else:
+            sig["window"] = "other"
+        sig["done"] = toks
+    except Exception as e:          # pragma: no cover
+        sig["window"] = "unknown"
+    return sig
